@@ -1,4 +1,5 @@
 import Lemmas.GErrClone
+import Generated.GerrorBase
 /-!
 # C15 — gerror: factories immutable; message/tag/source/stack compose lawfully
 
@@ -188,6 +189,31 @@ theorem source_first_wins (f : E) (hf : f.stack = []) (hs : f.src = []) (c : Cal
   rw [source_law f (inv_of_factory f hf) _ ho]
   simp [specSource, hs, hg]
 
+
+/-! ## Tie A: the wiring table is what `gerror.go` says today
+
+`Generated.GerrorBase` is rewritten from the checked tree before every build; these are re-checked by
+the kernel each time. -/
+
+/-- **Method wiring.** Every factory method of `*GError` hands to `CloneBase` exactly the stack
+type and the parameters its name promises (`wiring`), in the right positions, and only `Convert*`
+short-circuit on gerror values. -/
+theorem method_wiring : ∀ m ∈ Method.all, rowOf Generated.GerrorBase.rows m = some (wiring m) := by
+  decide
+
+/-- the `Factory` interface has exactly the 19 modelled methods, so `method_wiring` covers it -/
+theorem factory_methods_covered :
+    Generated.GerrorBase.factoryMethods.map String.toList = Method.all.map (fun m => m.goName.toList) ∧
+    Generated.GerrorBase.rows.length = Method.all.length := by
+  decide
+
+/-- the `StackType` constants and `defaultSkip` are the ones the model uses -/
+theorem stack_constants :
+    Generated.GerrorBase.stackDepths =
+      [(.noStack, StackType.noStack.depth), (.sourceStack, StackType.sourceStack.depth),
+       (.shortStack, StackType.shortStack.depth), (.defaultStack, StackType.defaultStack.depth)] ∧
+    Generated.GerrorBase.defaultSkip = 4 := by
+  decide
 
 /-! ## Immutability: derivations only allocate -/
 
